@@ -2,7 +2,7 @@ From Coq Require Import List NArith ZArith Bool Permutation.
 Import ListNotations.
 Require Import MV.Common.Interleave MV.C10.Model MV.C10.Spec MV.C10.Exec
                MV.C10.ProofsConc MV.C10.ProofsConc2 MV.C10.ProofsSeq MV.C10.ExecProofs
-               MV.C10.ProofsBound MV.C10.ProofsRefine MV.C10.ProofsWire MV.C10.ProofsSound MV.C10.ProofsSuffix MV.C10.ProofsAbs MV.C10.ProofsCompose MV.C10.ProofsCompose2 MV.C10.ProofsAbs2 MV.C10.ProofsSched MV.C10.ProofsSched2 MV.C10.ProofsSched3.
+               MV.C10.ProofsBound MV.C10.ProofsRefine MV.C10.ProofsWire MV.C10.ProofsSound MV.C10.ProofsSuffix MV.C10.ProofsAbs MV.C10.ProofsCompose MV.C10.ProofsCompose2 MV.C10.ProofsAbs2 MV.C10.ProofsSched MV.C10.ProofsSched2 MV.C10.ProofsSched3 MV.C10.ProofsMix MV.C10.ProofsSched4.
 Open Scope N_scope.
 Require Import MV.C10.Properties.
 
@@ -210,3 +210,26 @@ Print Assumptions C10_spec_ok_on_model_sched_partial.
 Check (C10_spec_ok_on_model_partial : forall c,
   known_class c = None -> case_wf c -> spec_ok c (run_case c) = true).
 Print Assumptions C10_spec_ok_on_model_partial.
+Check (C10_mixed_no_wrap_hazard_free : forall A I0, I0 + A < two64 ->
+  forall f ps sched, Forall (mix_prog A) ps -> one_flusher f ps ->
+  sumL (fun l => slo (todo l)) (map init_local ps) = I0 ->
+  safe (init_config ps) sched ->
+  let c := fst (exec (step all_fixed) site (init_config ps) sched) in
+  Forall (fun d => d <= I0 + A) (sent (fst c) ++ rawd (fst c) ++ lost (fst c)) /\
+  cur (cnt (fst c)) <= added (fst c) + A /\ added (fst c) <= I0 /\
+  (~ W (snd c) -> last (cnt (fst c)) <= cur (cnt (fst c)))).
+Print Assumptions C10_mixed_no_wrap_hazard_free.
+Check (C10_sched_delta_bound : forall ps sched,
+  ps <> [] -> MV.C10.Exec.one_flusher ps = true -> inc_sum ps + abs_max ps < two64 ->
+  known_class (CSched ps sched) = None -> all_done (step all_fixed) (final ps sched) = true ->
+  forallb (fun d => d <=? inc_sum ps + abs_max ps)
+          (sub64 (cur (cnt (fst (final ps sched)))) (last (cnt (fst (final ps sched))))
+           :: deltas_of (map (fun l => rev (results l)) (snd (final ps sched)))) = true).
+Print Assumptions C10_sched_delta_bound.
+Check (C10_spec_ok_on_model_sched : forall ps sched,
+  known_class (CSched ps sched) = None -> sched_wf_full ps sched ->
+  spec_ok (CSched ps sched) (run_case (CSched ps sched)) = true).
+Print Assumptions C10_spec_ok_on_model_sched.
+Check (C10_spec_ok_on_model : forall c,
+  known_class c = None -> case_wf_full c -> spec_ok c (run_case c) = true).
+Print Assumptions C10_spec_ok_on_model.
